@@ -1,5 +1,6 @@
 """Analysis primitives over the fact trees written by hfx: walking, structured path enumeration,
 symbolic places / origins with alias + copy propagation + accessor inlining, direct effects."""
+import json
 import itertools
 
 
@@ -40,6 +41,40 @@ def strip(e):
         else:
             break
     return e
+
+
+def _single_assign(st):
+    """the assignment of a branch that consists of exactly one plain assignment statement (possibly inside braces), else None"""
+    while isinstance(st, dict) and st.get("k") == "seq" and len(st.get("s", [])) == 1:
+        st = st["s"][0]
+    if isinstance(st, dict) and st.get("k") == "expr":
+        st = st.get("e")
+    st2 = strip(st) if isinstance(st, dict) else st
+    if isinstance(st2, dict) and st2.get("k") == "asg" and st2.get("op") == "=":
+        return st2
+    return None
+
+
+def normalise_ite(node):
+    """`if (c) x = a; else x = b;` (both arms a single plain assignment to the same place) is rewritten in place as `x = c ? a : b;`:
+    the two spellings are the same program, and the rules (value origins, routing sources) are written over the expression form."""
+    if isinstance(node, list):
+        for i, x in enumerate(node):
+            node[i] = normalise_ite(x)
+        return node
+    if not isinstance(node, dict):
+        return node
+    for k, v in list(node.items()):
+        if isinstance(v, (dict, list)):
+            node[k] = normalise_ite(v)
+    if node.get("k") == "if" and node.get("e") is not None and node.get("init") is None and node.get("cvar") is None:
+        a, b = _single_assign(node.get("t")), _single_assign(node.get("e"))
+        if a is not None and b is not None and json.dumps(a["lhs"], sort_keys=True) == json.dumps(b["lhs"], sort_keys=True):
+            asg = dict(a)
+            asg["rhs"] = {"k": "cond", "c": node["c"], "t": a["rhs"], "f": b["rhs"], "l": node.get("l"), "ty": a.get("ty")}
+            asg["l"] = node.get("l", a.get("l"))
+            return asg
+    return node
 
 
 def is_noop(s):
